@@ -699,6 +699,21 @@ pub fn s_legal(p: &Pos, m: &Mv) -> bool {
 
 /// The quantifier of C01/C05: a valid chess position.
 pub fn s_valid(p: &Pos) -> bool {
+    s_valid_core(p) && s_counts_ok(p)
+}
+
+/// at most 16 men and 8 pawns per side
+pub fn s_counts_ok(p: &Pos) -> bool {
+    let pawns = p.pieces[PAWN];
+    p.colors[0].count_ones() <= 16
+        && p.colors[1].count_ones() <= 16
+        && (pawns & p.colors[0]).count_ones() <= 8
+        && (pawns & p.colors[1]).count_ones() <= 8
+}
+
+/// validity without the cardinality clauses: consistent boards, one king per side, no pawn on rank 1/8,
+/// castling rights backed, the side not to move not in check, en-passant state consistent
+pub fn s_valid_core(p: &Pos) -> bool {
     if !s_consistent(p) || !s_one_king_each(p) {
         return false;
     }
@@ -708,9 +723,6 @@ pub fn s_valid(p: &Pos) -> bool {
     }
     let mut c = 0;
     while c < 2 {
-        if p.colors[c].count_ones() > 16 || (pawns & p.colors[c]).count_ones() > 8 {
-            return false;
-        }
         let base = s_back_rank(c);
         let rooks = p.pieces[ROOK] & p.colors[c];
         if p.rights[c] != 0 && p.king_sq(c) != base + 4 {
@@ -776,4 +788,44 @@ pub fn s_mirror(p: &Pos) -> Pos {
         None => None,
     };
     q
+}
+
+// ---------------------------------------------------------------- validation (C07 / C05)
+
+/// What `Board::is_sane` must accept — written from the statement of C07/C05, not from the code:
+/// structurally consistent bitboards, exactly one king per side, the kings not adjacent, the side not to move
+/// not in check, every castling right backed by king and rook on their home squares, a recorded en-passant
+/// square holding a pawn of the side that just moved, and no more men per side than a chess set has
+/// (which is also what keeps the 18-slot move list sufficient: one slot per man plus two en-passant captures).
+pub fn s_sane(p: &Pos, combined: u64) -> bool {
+    if !s_consistent(p) || combined != p.occ() || !s_one_king_each(p) {
+        return false;
+    }
+    if p.colors[0].count_ones() > 16 || p.colors[1].count_ones() > 16 {
+        return false;
+    }
+    if let Some(ep) = p.ep {
+        if ep > 63 || p.pieces[PAWN] & p.colors[1 - p.stm] & bit(ep) == 0 {
+            return false;
+        }
+    }
+    if s_in_check(p, 1 - p.stm) {
+        return false;
+    }
+    let mut c = 0;
+    while c < 2 {
+        let base = s_back_rank(c);
+        let rooks = p.pieces[ROOK] & p.colors[c];
+        if p.rights[c] != 0 && p.king_sq(c) != base + 4 {
+            return false;
+        }
+        if p.rights[c] & 1 != 0 && !has(rooks, base + 7) {
+            return false;
+        }
+        if p.rights[c] & 2 != 0 && !has(rooks, base) {
+            return false;
+        }
+        c += 1;
+    }
+    true
 }
